@@ -278,7 +278,7 @@ fn sweep_codes(ctx: &Ctx, n_random: u64) {
     ctx.bulk("os-codes", evals, evals, &[], vec![json!({"code": codes[2]}), json!({"code": codes[codes.len() - 1]})]);
 }
 
-fn strategy() -> impl Strategy<Value = Case> {
+pub fn strategy() -> impl Strategy<Value = Case> {
     (
         0u8..5,
         0u8..3,
